@@ -251,8 +251,17 @@ func genTag(r *Rng, tier string) []byte {
 }
 
 func genChunkID(r *Rng) []byte {
-	if r.Chance(70) {
+	if r.Chance(60) {
 		return []byte("p8n9gmxTQVC8/nh2wlKKeQ==")
+	}
+	if r.Chance(30) {
+		// caller-chosen ids at the string-header boundaries (fixstr 31 / str8 32..255 / str16 256)
+		n := []int{31, 32, 33, 36, 64, 255, 256, 257}[r.Intn(8)]
+		b := make([]byte, n)
+		for i := range b {
+			b[i] = "0123456789abcdef"[r.Intn(16)]
+		}
+		return b
 	}
 	return r.Bytes(1 + r.Intn(30))
 }
